@@ -1,12 +1,992 @@
-//! C03 - not built yet.
-use crate::run::Ctx;
-use serde_json::Value;
+//! C03 - no public operation panics, reports an internal assertion error or loops without bound.
+//! Structured op universe over every public entry point with extreme arguments; the byte-level
+//! libFuzzer targets live in /verif/fuzz and reuse `run_op`.
 
-pub fn run(_ctx: &mut Ctx) {
-    eprintln!("property C03 has no check yet");
-    std::process::exit(2);
+use crate::conv::*;
+use crate::gen;
+use crate::props::c13::{shaped_zones, syn_zone};
+use crate::refm::civil::{date_in_range, to_days, MAX_DAY, MAX_INSTANT, MIN_DAY};
+use crate::refm::civil::NS_PER_DAY as NS_DAY;
+use crate::refm::dateadd::{Dt, Ymd};
+use crate::refm::dur::Dur;
+use crate::refm::tz::Zone;
+use crate::run::*;
+use crate::tzp::TableProvider;
+use proptest::prelude::*;
+use serde::{Deserialize, Serialize};
+use serde_json::Value;
+use std::str::FromStr;
+use std::sync::OnceLock;
+use temporal_rs::error::ErrorKind;
+use temporal_rs::options::*;
+use temporal_rs::parsers::Precision;
+use temporal_rs::partial::*;
+use temporal_rs::provider::TimeZoneProvider;
+use temporal_rs::provider::TransitionDirection;
+use temporal_rs::time::EpochNanoseconds;
+use temporal_rs::tzdb::FsTzdbProvider;
+use temporal_rs::*;
+
+pub const N_OPS: u16 = 118;
+
+#[derive(Serialize, Deserialize, Debug, Clone)]
+pub enum ZoneArg {
+    Fixed(i32),
+    Table(Zone),
+    /// a name looked up in the bundled FsTzdbProvider (real IANA names and garbage)
+    Named(String),
 }
 
-pub fn replay(_ctx: &mut Ctx, _sub: &str, _case: &Value) -> bool {
-    false
+/// raw arguments: nothing here is guaranteed valid
+#[derive(Serialize, Deserialize, Debug, Clone)]
+pub struct Args {
+    pub y: i32,
+    pub mo: u8,
+    pub d: u8,
+    pub h: u8,
+    pub mi: u8,
+    pub s: u8,
+    pub ms: u16,
+    pub us: u16,
+    pub ns: u16,
+    pub y2: i32,
+    /// valid receivers
+    pub day1: i64,
+    pub day2: i64,
+    pub tod1: i128,
+    pub tod2: i128,
+    pub inst1: i128,
+    pub inst2: i128,
+    /// raw instant-like value (may be out of range)
+    pub raw_ns: i128,
+    pub raw_ms: i64,
+    /// raw duration fields (any finite doubles) and two valid durations
+    pub f: [f64; 10],
+    pub dur1: Dur,
+    pub dur2: Dur,
+    /// options: 0 = absent, 1 = auto, 2..=11 units
+    pub largest: u8,
+    pub smallest: u8,
+    pub inc: u32,
+    pub inc_f: f64,
+    /// 0 = absent, 1..=9
+    pub mode: u8,
+    /// 0 absent, 1 constrain, 2 reject
+    pub overflow: u8,
+    pub dis: u8,
+    pub offopt: u8,
+    pub display: u8,
+    /// 0 auto, 1 minute, 2.. digit(n-2)
+    pub precision: u8,
+    pub cal: u8,
+    pub cal2: u8,
+    pub zone: ZoneArg,
+    pub text: String,
+    /// partial-field presence mask
+    pub mask: u16,
+    pub era: String,
+    pub mcode: String,
+}
+
+#[derive(Serialize, Deserialize, Debug, Clone)]
+pub struct Case {
+    pub op: u16,
+    pub a: Args,
+}
+
+pub const CALS: [&str; 20] = [
+    "iso8601", "gregory", "japanese", "buddhist", "chinese", "coptic", "dangi", "ethioaa", "ethiopic", "hebrew", "indian", "islamic", "islamic-civil", "islamic-tbla",
+    "islamic-umalqura", "persian", "roc", "japanext", "islamicc", "iso",
+];
+
+fn cal(i: u8) -> Calendar {
+    Calendar::from_str(CALS[i as usize % CALS.len()]).unwrap_or_default()
+}
+fn unit_opt(v: u8) -> Option<Unit> {
+    match v % 12 {
+        0 => None,
+        1 => Some(Unit::Auto),
+        n => Some(Unit::from((n - 1) as usize)),
+    }
+}
+fn unit_req(v: u8) -> Unit {
+    unit_opt(v).unwrap_or(Unit::Auto)
+}
+fn mode_opt(v: u8) -> Option<RoundingMode> {
+    use RoundingMode::*;
+    [None, Some(Ceil), Some(Floor), Some(Expand), Some(Trunc), Some(HalfCeil), Some(HalfFloor), Some(HalfExpand), Some(HalfTrunc), Some(HalfEven)][v as usize % 10]
+}
+fn ov_opt(v: u8) -> Option<ArithmeticOverflow> {
+    [None, Some(ArithmeticOverflow::Constrain), Some(ArithmeticOverflow::Reject)][v as usize % 3]
+}
+fn ov_req(v: u8) -> ArithmeticOverflow {
+    ov_opt(v).unwrap_or(ArithmeticOverflow::Constrain)
+}
+fn dis(v: u8) -> Disambiguation {
+    [Disambiguation::Compatible, Disambiguation::Earlier, Disambiguation::Later, Disambiguation::Reject][v as usize % 4]
+}
+fn offopt(v: u8) -> OffsetDisambiguation {
+    [OffsetDisambiguation::Use, OffsetDisambiguation::Prefer, OffsetDisambiguation::Ignore, OffsetDisambiguation::Reject][v as usize % 4]
+}
+fn dcal(v: u8) -> DisplayCalendar {
+    [DisplayCalendar::Auto, DisplayCalendar::Always, DisplayCalendar::Never, DisplayCalendar::Critical][v as usize % 4]
+}
+fn doff(v: u8) -> DisplayOffset {
+    [DisplayOffset::Auto, DisplayOffset::Never][v as usize % 2]
+}
+fn dtz(v: u8) -> DisplayTimeZone {
+    [DisplayTimeZone::Auto, DisplayTimeZone::Never, DisplayTimeZone::Critical][v as usize % 3]
+}
+fn prec(v: u8) -> Precision {
+    match v {
+        0 => Precision::Auto,
+        1 => Precision::Minute,
+        n => Precision::Digit(n - 2),
+    }
+}
+fn settings(a: &Args) -> Option<DifferenceSettings> {
+    let mut s = DifferenceSettings::default();
+    s.largest_unit = unit_opt(a.largest);
+    s.smallest_unit = unit_opt(a.smallest);
+    s.rounding_mode = mode_opt(a.mode);
+    s.increment = if a.inc == 0 { None } else { Some(RoundingIncrement::try_new(a.inc).ok()?) };
+    Some(s)
+}
+fn ropts(a: &Args) -> Option<RoundingOptions> {
+    let mut s = RoundingOptions::default();
+    s.largest_unit = unit_opt(a.largest);
+    s.smallest_unit = unit_opt(a.smallest);
+    s.rounding_mode = mode_opt(a.mode);
+    s.increment = if a.inc == 0 { None } else { Some(RoundingIncrement::try_new(a.inc).ok()?) };
+    Some(s)
+}
+fn sopts(a: &Args) -> ToStringRoundingOptions {
+    let mut o = ToStringRoundingOptions::default();
+    o.precision = prec(a.precision);
+    o.smallest_unit = unit_opt(a.smallest);
+    o.rounding_mode = mode_opt(a.mode);
+    o
+}
+fn tz_of(z: &ZoneArg) -> TimeZone {
+    match z {
+        ZoneArg::Fixed(m) => TimeZone::try_from_identifier_str(&crate::refm::fmt::offset_minutes((*m as i64).clamp(-1439, 1439))).unwrap_or_default(),
+        ZoneArg::Table(z) => TimeZone::IanaIdentifier(z.name.clone()),
+        ZoneArg::Named(n) => TimeZone::IanaIdentifier(n.clone()),
+    }
+}
+
+enum Prov {
+    Table(TableProvider),
+    Fs(&'static FsTzdbProvider),
+}
+// FsTzdbProvider holds a RefCell cache, so it is not Sync: one per thread
+thread_local! {
+    static FS: &'static FsTzdbProvider = Box::leak(Box::new(FsTzdbProvider::default()));
+}
+fn prov_of(z: &ZoneArg) -> Prov {
+    match z {
+        ZoneArg::Table(z) => Prov::Table(TableProvider::new(vec![z.clone()])),
+        ZoneArg::Fixed(_) => Prov::Table(TableProvider::utc_only()),
+        ZoneArg::Named(_) => Prov::Fs(FS.with(|f| *f)),
+    }
+}
+
+fn partial_date(a: &Args, c: Calendar) -> PartialDate {
+    let mut p = PartialDate::new().with_calendar(c);
+    if a.mask & 1 != 0 {
+        p = p.with_year(Some(a.y));
+    }
+    if a.mask & 2 != 0 {
+        p = p.with_month(Some(a.mo));
+    }
+    if a.mask & 4 != 0 {
+        p = p.with_month_code(MonthCode::from_str(&a.mcode).ok());
+    }
+    if a.mask & 8 != 0 {
+        p = p.with_day(Some(a.d));
+    }
+    if a.mask & 16 != 0 {
+        p = p.with_era(TinyAsciiStr::<19>::try_from_str(&a.era).ok());
+    }
+    if a.mask & 32 != 0 {
+        p = p.with_era_year(Some(a.y2));
+    }
+    p
+}
+fn partial_time(a: &Args) -> PartialTime {
+    let mut p = PartialTime::new();
+    if a.mask & 64 != 0 {
+        p = p.with_hour(Some(a.h));
+    }
+    if a.mask & 128 != 0 {
+        p = p.with_minute(Some(a.mi));
+    }
+    if a.mask & 256 != 0 {
+        p = p.with_second(Some(a.s));
+    }
+    if a.mask & 512 != 0 {
+        p = p.with_millisecond(Some(a.ms));
+    }
+    if a.mask & 1024 != 0 {
+        p = p.with_microsecond(Some(a.us));
+    }
+    if a.mask & 2048 != 0 {
+        p = p.with_nanosecond(Some(a.ns));
+    }
+    p
+}
+
+/// what a call produced, reduced to what C03 judges
+pub enum R {
+    Ok,
+    Err(ErrorKind, String),
+    /// the op could not be set up from these arguments (counted, trivial)
+    Skip,
+}
+fn r<T>(x: TemporalResult<T>) -> R {
+    match x {
+        Ok(_) => R::Ok,
+        Err(e) => R::Err(e.kind(), e.message().to_string()),
+    }
+}
+fn first_err(v: Vec<R>) -> R {
+    let mut out = R::Ok;
+    for x in v {
+        if let R::Err(ErrorKind::Assert, _) = x {
+            return x;
+        }
+        if let R::Err(..) = x {
+            out = x;
+        }
+    }
+    out
+}
+
+macro_rules! some {
+    ($e:expr) => {
+        match $e {
+            Some(v) => v,
+            None => return R::Skip,
+        }
+    };
+}
+macro_rules! okk {
+    ($e:expr) => {
+        match $e {
+            Ok(v) => v,
+            Err(_) => return R::Skip,
+        }
+    };
+}
+
+/// executes op `c.op` (the heart of C03; also driven by the libFuzzer `ops` target)
+pub fn run_op(c: &Case) -> R {
+    let a = &c.a;
+    let d1 = okk!(plain_date(Ymd::from_n(a.day1)));
+    let d2 = okk!(plain_date(Ymd::from_n(a.day2)));
+    let t1 = okk!(plain_time(a.tod1));
+    let t2 = okk!(plain_time(a.tod2));
+    let c1 = cal(a.cal);
+    let c2 = cal(a.cal2);
+    let tz = tz_of(&a.zone);
+    macro_rules! prov {
+        ($p:ident => $body:expr) => {
+            match prov_of(&a.zone) {
+                Prov::Table(t) => {
+                    let $p = &t;
+                    $body
+                }
+                Prov::Fs(f) => {
+                    let $p = f;
+                    $body
+                }
+            }
+        };
+    }
+    match c.op {
+        // ---- PlainDate
+        0 => r(PlainDate::new(a.y, a.mo, a.d, c1)),
+        1 => r(PlainDate::try_new(a.y, a.mo, a.d, c1)),
+        2 => r(PlainDate::new_with_overflow(a.y, a.mo, a.d, c1, ov_req(a.overflow))),
+        3 => r(PlainDate::from_partial(partial_date(a, c1), ov_opt(a.overflow))),
+        4 => r(d1.with_calendar(c1.clone()).and_then(|d| d.with(partial_date(a, c1), ov_opt(a.overflow)))),
+        5 => r(duration_from_f64s(&a.f).and_then(|d| d1.add(&d, ov_opt(a.overflow)))),
+        6 => r(duration_from_f64s(&a.f).and_then(|d| d1.subtract(&d, ov_opt(a.overflow)))),
+        7 => r(duration_from_dur(&a.dur1).and_then(|d| d1.add(&d, ov_opt(a.overflow)))),
+        8 => r(d1.until(&d2, some!(settings(a)))),
+        9 => r(d1.since(&d2, some!(settings(a)))),
+        10 => {
+            // calendar getters on any calendar, any date
+            let d = okk!(d1.with_calendar(c1));
+            let _ = (d.year(), d.month(), d.month_code(), d.day(), d.day_of_week(), d.day_of_year(), d.days_in_month(), d.days_in_year(), d.months_in_year(), d.in_leap_year(), d.era(), d.era_year());
+            first_err(vec![r(d.week_of_year()), r(d.year_of_week()), r(d.days_in_week())])
+        }
+        11 => {
+            let d = okk!(d1.with_calendar(c1));
+            first_err(vec![r(d.to_plain_year_month()), r(d.to_plain_month_day()), r(d.to_plain_date_time(Some(t1)))])
+        }
+        12 => {
+            let d = okk!(d1.with_calendar(c1));
+            let _ = d.to_ixdtf_string(dcal(a.display));
+            let _ = d.to_string();
+            R::Ok
+        }
+        13 => prov!(p => r(d1.to_zoned_date_time_with_provider(tz.clone(), if a.mask & 1 != 0 { Some(t1) } else { None }, p))),
+        14 => r(PlainDate::from_str(&a.text)),
+        15 => {
+            // differences across different calendars / with add in non-ISO calendars
+            let x = okk!(d1.with_calendar(c1));
+            let y = okk!(d2.with_calendar(c2));
+            first_err(vec![r(x.until(&y, some!(settings(a)))), r(duration_from_dur(&a.dur1).and_then(|d| x.add(&d, None)))])
+        }
+        // ---- PlainDateTime
+        16 => r(PlainDateTime::new(a.y, a.mo, a.d, a.h, a.mi, a.s, a.ms, a.us, a.ns, c1)),
+        17 => r(PlainDateTime::try_new(a.y, a.mo, a.d, a.h, a.mi, a.s, a.ms, a.us, a.ns, c1)),
+        18 => r(PlainDateTime::new_with_overflow(a.y, a.mo, a.d, a.h, a.mi, a.s, a.ms, a.us, a.ns, c1, ov_req(a.overflow))),
+        19 => r(PlainDateTime::from_date_and_time(d1, t1)),
+        20 => r(PlainDateTime::from_partial(PartialDateTime::new().with_partial_date(partial_date(a, c1)).with_partial_time(partial_time(a)), ov_opt(a.overflow))),
+        21 => {
+            let p = okk!(PlainDateTime::from_date_and_time(d1, t1));
+            r(p.with(PartialDateTime::new().with_partial_date(partial_date(a, Calendar::default())).with_partial_time(partial_time(a)), ov_opt(a.overflow)))
+        }
+        22 => {
+            let p = okk!(PlainDateTime::from_date_and_time(d1, t1));
+            first_err(vec![r(p.with_time(t2)), r(p.with_calendar(c1)), r(p.to_plain_date()), r(p.to_plain_time())])
+        }
+        23 => {
+            let p = okk!(PlainDateTime::from_date_and_time(d1, t1));
+            r(duration_from_f64s(&a.f).and_then(|d| p.add(&d, ov_opt(a.overflow))))
+        }
+        24 => {
+            let p = okk!(PlainDateTime::from_date_and_time(d1, t1));
+            r(duration_from_dur(&a.dur1).and_then(|d| p.subtract(&d, ov_opt(a.overflow))))
+        }
+        25 => {
+            let p = okk!(PlainDateTime::from_date_and_time(d1, t1));
+            let q = okk!(PlainDateTime::from_date_and_time(d2, t2));
+            first_err(vec![r(p.until(&q, some!(settings(a)))), r(p.since(&q, some!(settings(a))))])
+        }
+        26 => {
+            let p = okk!(PlainDateTime::from_date_and_time(d1, t1));
+            r(p.round(some!(ropts(a))))
+        }
+        27 => {
+            let p = okk!(PlainDateTime::from_date_and_time(d1, t1));
+            prov!(pv => r(p.to_zoned_date_time_with_provider(&tz, dis(a.dis), pv)))
+        }
+        28 => {
+            let p = okk!(PlainDateTime::from_date_and_time(okk!(d1.with_calendar(c1)), t1));
+            let _ = p.to_string();
+            r(p.to_ixdtf_string(sopts(a), dcal(a.display)))
+        }
+        29 => r(PlainDateTime::from_str(&a.text)),
+        30 => {
+            let p = okk!(PlainDateTime::from_date_and_time(okk!(d1.with_calendar(c1)), t1));
+            let _ = (p.year(), p.month(), p.month_code(), p.day(), p.day_of_week(), p.day_of_year(), p.days_in_month(), p.days_in_year(), p.months_in_year(), p.in_leap_year(), p.era(), p.era_year(), p.hour(), p.nanosecond());
+            first_err(vec![r(p.week_of_year()), r(p.year_of_week()), r(p.days_in_week())])
+        }
+        // ---- PlainTime
+        31 => r(PlainTime::new(a.h, a.mi, a.s, a.ms, a.us, a.ns)),
+        32 => r(PlainTime::try_new(a.h, a.mi, a.s, a.ms, a.us, a.ns)),
+        33 => r(PlainTime::new_with_overflow(a.h, a.mi, a.s, a.ms, a.us, a.ns, ov_req(a.overflow))),
+        34 => r(PlainTime::from_partial(partial_time(a), ov_opt(a.overflow))),
+        35 => r(t1.with(partial_time(a), ov_opt(a.overflow))),
+        36 => r(duration_from_f64s(&a.f).and_then(|d| t1.add(&d))),
+        37 => r(duration_from_dur(&a.dur1).and_then(|d| t1.subtract(&d))),
+        38 => first_err(vec![r(t1.until(&t2, some!(settings(a)))), r(t1.since(&t2, some!(settings(a))))]),
+        39 => r(t1.round(unit_req(a.smallest), if a.mask & 1 != 0 { Some(a.inc_f) } else { None }, mode_opt(a.mode))),
+        40 => r(t1.to_ixdtf_string(sopts(a))),
+        41 => r(PlainTime::from_str(&a.text)),
+        // ---- PlainYearMonth
+        42 => r(PlainYearMonth::new_with_overflow(a.y, a.mo, if a.mask & 1 != 0 { Some(a.d) } else { None }, c1, ov_req(a.overflow))),
+        43 => r(PlainYearMonth::from_partial(partial_date(a, c1), ov_req(a.overflow))),
+        44 => {
+            let ym = okk!(d1.to_plain_year_month());
+            r(ym.with(partial_date(a, Calendar::default()), ov_opt(a.overflow)))
+        }
+        45 => {
+            let ym = okk!(d1.to_plain_year_month());
+            first_err(vec![r(duration_from_f64s(&a.f).and_then(|d| ym.add(&d, ov_req(a.overflow)))), r(duration_from_dur(&a.dur1).and_then(|d| ym.subtract(&d, ov_req(a.overflow))))])
+        }
+        46 => {
+            let ym = okk!(d1.to_plain_year_month());
+            let ym2 = okk!(d2.to_plain_year_month());
+            first_err(vec![r(ym.until(&ym2, some!(settings(a)))), r(ym.since(&ym2, some!(settings(a))))])
+        }
+        47 => {
+            let ym = okk!(okk!(d1.with_calendar(c1)).to_plain_year_month());
+            let _ = (ym.iso_year(), ym.iso_month(), ym.padded_iso_year_string(), ym.era(), ym.era_year(), ym.year(), ym.month(), ym.month_code(), ym.days_in_year(), ym.days_in_month(), ym.months_in_year(), ym.in_leap_year(), ym.calendar_id());
+            let _ = ym.to_ixdtf_string(dcal(a.display));
+            r(ym.to_plain_date())
+        }
+        48 => r(PlainYearMonth::from_str(&a.text)),
+        // ---- PlainMonthDay
+        49 => r(PlainMonthDay::new_with_overflow(a.mo, a.d, c1, ov_req(a.overflow), if a.mask & 1 != 0 { Some(a.y) } else { None })),
+        50 => {
+            let md = okk!(d1.to_plain_month_day());
+            let _ = (md.iso_day(), md.iso_month(), md.iso_year(), md.calendar_id(), md.month_code());
+            let _ = md.to_ixdtf_string(dcal(a.display));
+            first_err(vec![r(md.with(partial_date(a, Calendar::default()), ov_req(a.overflow))), r(md.to_plain_date())])
+        }
+        51 => r(PlainMonthDay::from_str(&a.text)),
+        // ---- Instant
+        52 => r(Instant::try_new(a.raw_ns)),
+        53 => r(Instant::from_epoch_milliseconds(a.raw_ms)),
+        54 => {
+            let i = okk!(Instant::try_new(a.inst1));
+            first_err(vec![r(duration_from_f64s(&a.f).and_then(|d| i.add(d))), r(duration_from_dur(&a.dur1).and_then(|d| i.subtract(d)))])
+        }
+        55 => {
+            let (i, j) = (okk!(Instant::try_new(a.inst1)), okk!(Instant::try_new(a.inst2)));
+            first_err(vec![r(i.until(&j, some!(settings(a)))), r(i.since(&j, some!(settings(a))))])
+        }
+        56 => r(okk!(Instant::try_new(a.inst1)).round(some!(ropts(a)))),
+        57 => {
+            let i = okk!(Instant::try_new(a.inst1));
+            let _ = i.epoch_milliseconds();
+            let _ = i.to_zoned_date_time_iso(tz.clone());
+            prov!(p => r(i.to_ixdtf_string_with_provider(if a.mask & 1 != 0 { Some(&tz) } else { None }, sopts(a), p)))
+        }
+        58 => r(Instant::from_str(&a.text)),
+        // ---- Duration
+        59 => r(duration_from_f64s(&a.f)),
+        60 => {
+            let mut p = PartialDuration::default();
+            let flds = [&mut p.years, &mut p.months, &mut p.weeks, &mut p.days, &mut p.hours, &mut p.minutes, &mut p.seconds, &mut p.milliseconds, &mut p.microseconds, &mut p.nanoseconds];
+            for (i, f) in flds.into_iter().enumerate() {
+                if a.mask & (1 << i) != 0 {
+                    *f = Some(ff(a.f[i]));
+                }
+            }
+            r(Duration::from_partial_duration(p))
+        }
+        61 => {
+            let t = okk!(TimeDuration::new(ff(a.f[4]), ff(a.f[5]), ff(a.f[6]), ff(a.f[7]), ff(a.f[8]), ff(a.f[9])));
+            let d = Duration::from_day_and_time(ff(a.f[3]), &t);
+            let _ = (d.sign(), d.is_zero(), d.negated(), d.abs(), d.is_time_within_range(), t.is_within_range(), t.sign(), t.abs(), t.negated());
+            r(DateDuration::new(ff(a.f[0]), ff(a.f[1]), ff(a.f[2]), ff(a.f[3])))
+        }
+        62 => {
+            let (x, y) = (okk!(duration_from_dur(&a.dur1)), okk!(duration_from_dur(&a.dur2)));
+            first_err(vec![r(x.add(&y)), r(x.subtract(&y))])
+        }
+        63 | 64 | 65 => {
+            // round / total / compare with every kind of relativeTo
+            let x = okk!(duration_from_dur(&a.dur1));
+            let y = okk!(duration_from_dur(&a.dur2));
+            let rel = match a.mask % 3 {
+                0 => None,
+                1 => Some(RelativeTo::PlainDate(d1.clone())),
+                _ => Some(RelativeTo::ZonedDateTime(okk!(ZonedDateTime::try_new(a.inst1, Calendar::default(), tz.clone())))),
+            };
+            prov!(p => match c.op {
+                63 => r(x.round_with_provider(some!(ropts(a)), rel, p)),
+                64 => r(x.total_with_provider(unit_req(a.smallest), rel, p)),
+                _ => r(x.compare_with_provider(&y, rel, p)),
+            })
+        }
+        66 => {
+            // unvalidated durations (from_day_and_time) flowing into arithmetic
+            let t = okk!(TimeDuration::new(ff(a.f[4]), ff(a.f[5]), ff(a.f[6]), ff(a.f[7]), ff(a.f[8]), ff(a.f[9])));
+            let d = Duration::from_day_and_time(ff(a.f[3]), &t);
+            let p = TableProvider::utc_only();
+            first_err(vec![r(d1.add(&d, None)), r(d.round_with_provider(some!(ropts(a)), None, &p)), r(d.total_with_provider(unit_req(a.smallest), None, &p)), r(d.as_temporal_string(sopts(a)))])
+        }
+        67 => r(okk!(duration_from_dur(&a.dur1)).as_temporal_string(sopts(a))),
+        68 => r(Duration::from_str(&a.text)),
+        // ---- ZonedDateTime
+        69 => r(ZonedDateTime::try_new(a.raw_ns, c1, tz)),
+        70 => {
+            let mut p = PartialZonedDateTime::new().with_date(partial_date(a, c1)).with_time(partial_time(a)).with_timezone(Some(tz.clone()));
+            if a.mask & 4096 != 0 {
+                p = p.with_offset(UtcOffset::from_str(&crate::refm::fmt::offset_minutes((a.y2 % 1440) as i64)).ok());
+            }
+            prov!(pv => r(ZonedDateTime::from_partial_with_provider(p, ov_opt(a.overflow), Some(dis(a.dis)), Some(offopt(a.offopt)), pv)))
+        }
+        71 => prov!(p => r(ZonedDateTime::from_str_with_provider(&a.text, dis(a.dis), offopt(a.offopt), p))),
+        72..=86 => {
+            let z = okk!(ZonedDateTime::try_new(a.inst1, c1, tz.clone()));
+            let z2 = okk!(ZonedDateTime::try_new(a.inst2, c2.clone(), tz.clone()));
+            prov!(p => match c.op {
+                72 => first_err(vec![
+                    r(z.year_with_provider(p)), r(z.month_with_provider(p)), r(z.month_code_with_provider(p)), r(z.day_with_provider(p)), r(z.hour_with_provider(p)),
+                    r(z.minute_with_provider(p)), r(z.second_with_provider(p)), r(z.millisecond_with_provider(p)), r(z.microsecond_with_provider(p)), r(z.nanosecond_with_provider(p)),
+                    r(z.offset_with_provider(p)), r(z.offset_nanoseconds_with_provider(p)),
+                ]),
+                73 => first_err(vec![
+                    r(z.era_with_provider(p)), r(z.era_year_with_provider(p)), r(z.day_of_week_with_provider(p)), r(z.day_of_year_with_provider(p)), r(z.week_of_year_with_provider(p)),
+                    r(z.year_of_week_with_provider(p)), r(z.days_in_week_with_provider(p)), r(z.days_in_month_with_provider(p)), r(z.days_in_year_with_provider(p)),
+                    r(z.months_in_year_with_provider(p)), r(z.in_leap_year_with_provider(p)),
+                ]),
+                74 => r(duration_from_f64s(&a.f).and_then(|d| z.add_with_provider(&d, ov_opt(a.overflow), p))),
+                75 => r(duration_from_dur(&a.dur1).and_then(|d| z.subtract_with_provider(&d, ov_opt(a.overflow), p))),
+                76 => r(z.until_with_provider(&z2, some!(settings(a)), p)),
+                77 => r(z.since_with_provider(&z2, some!(settings(a)), p)),
+                78 => r(z.start_of_day_with_provider(p)),
+                79 => r(z.hours_in_day_with_provider(p)),
+                80 => r(z.with_plain_time_and_provider(t1, p)),
+                81 => first_err(vec![r(z.to_plain_date_with_provider(p)), r(z.to_plain_time_with_provider(p)), r(z.to_plain_datetime_with_provider(p))]),
+                82 => first_err(vec![r(z.to_string_with_provider(p)), r(z.to_ixdtf_string_with_provider(doff(a.display), dtz(a.display / 2), dcal(a.display / 6), sopts(a), p))]),
+                83 => first_err(vec![r(z.get_time_zone_transition_with_provider(TransitionDirection::Next, p).or_else(|e| if e.kind() == ErrorKind::Generic { Ok(None) } else { Err(e) })), r(z.get_time_zone_transition_with_provider(TransitionDirection::Previous, p).or_else(|e| if e.kind() == ErrorKind::Generic { Ok(None) } else { Err(e) }))]),
+                84 => {
+                    let _ = (z.epoch_milliseconds(), z.epoch_nanoseconds(), z.to_instant(), z.compare_instant(&z2), z.calendar(), z.timezone());
+                    first_err(vec![r(z.with_timezone(tz_of(&ZoneArg::Fixed(a.y2 % 1440)))), r(z.with_calendar(c2)), r(z.with(PartialZonedDateTime::new()).or_else(|e| if e.kind() == ErrorKind::Generic { Ok(z.clone()) } else { Err(e) }))])
+                }
+                85 => {
+                    // chain: add then measure back then add again
+                    let d = okk!(duration_from_dur(&a.dur1));
+                    let w = okk!(z.add_with_provider(&d, None, p));
+                    let back = okk!(z.until_with_provider(&w, some!(settings(a)), p));
+                    r(z.add_with_provider(&back, None, p))
+                }
+                _ => {
+                    // Now::* with explicit system info
+                    let e = okk!(EpochNanoseconds::try_from(a.inst1));
+                    first_err(vec![
+                        r(Now::zoneddatetime_iso_with_system_info(e, tz.clone())),
+                        r(Now::plain_datetime_iso_with_provider_and_system_info(e, tz.clone(), p)),
+                        r(Now::plain_date_iso_with_provider_and_system_info(e, tz.clone(), p)),
+                        r(Now::plain_time_iso_with_provider_and_system_info(e, tz.clone(), p)),
+                    ])
+                }
+            })
+        }
+        // ---- identifiers, enums, small types
+        87 => r(Calendar::from_str(&a.text)),
+        88 => r(Calendar::from_utf8(a.text.as_bytes())),
+        89 => first_err(vec![r(MonthCode::from_str(&a.mcode)), r(MonthCode::try_from_utf8(a.text.as_bytes()))]),
+        90 => first_err(vec![r(TimeZone::try_from_str(&a.text)), r(TimeZone::try_from_identifier_str(&a.text))]),
+        91 => {
+            let o = UtcOffset::from_str(&a.text);
+            if let Ok(o) = &o {
+                let _ = o.to_string();
+            }
+            r(o)
+        }
+        92 => {
+            let _ = (
+                Unit::from_str(&a.text).is_ok(),
+                RoundingMode::from_str(&a.text).is_ok(),
+                ArithmeticOverflow::from_str(&a.text).is_ok(),
+                DurationOverflow::from_str(&a.text).is_ok(),
+                Disambiguation::from_str(&a.text).is_ok(),
+                OffsetDisambiguation::from_str(&a.text).is_ok(),
+                DisplayCalendar::from_str(&a.text).is_ok(),
+                DisplayOffset::from_str(&a.text).is_ok(),
+                DisplayTimeZone::from_str(&a.text).is_ok(),
+                TransitionDirection::from_str(&a.text).is_ok(),
+            );
+            R::Ok
+        }
+        93 => prov!(p => r(RelativeTo::try_from_str_with_provider(&a.text, p))),
+        94 => {
+            let _ = tz.identifier();
+            let u = unit_req(a.smallest);
+            let _ = (u.as_nanoseconds(), u.is_calendar_unit(), u.is_date_unit(), u.is_time_unit(), u.to_string());
+            let _ = u.to_maximum_rounding_increment();
+            first_err(vec![r(RoundingIncrement::try_new(a.inc)), r(RoundingIncrement::try_from(a.inc_f)), r(UnitGroup::Date.validate_unit(unit_opt(a.largest), unit_opt(a.smallest))), r(UnitGroup::Time.validate_required_unit(unit_opt(a.largest), unit_opt(a.smallest))), r(UnitGroup::DateTime.validate_unit(unit_opt(a.largest), None))])
+        }
+        95 => {
+            // the provider trait directly with raw identifiers and instants
+            let f = FS.with(|f| *f);
+            let _ = f.check_identifier(&a.text);
+            let name = match &a.zone {
+                ZoneArg::Named(n) => n.clone(),
+                _ => a.text.clone(),
+            };
+            first_err(vec![r(f.get_named_tz_offset_nanoseconds(&name, a.raw_ns)), r(f.get(&name)), r(f.get_named_tz_transition(&name, a.raw_ns, TransitionDirection::Next).or_else(|e| if e.kind() == ErrorKind::Generic { Ok(None) } else { Err(e) }))])
+        }
+        96 => {
+            // calendar methods taking IsoDate are reached through PlainDate; date_from_partial etc. directly
+            first_err(vec![r(c1.date_from_partial(&partial_date(a, c1.clone()), ov_req(a.overflow))), r(c1.month_day_from_partial(&partial_date(a, c1.clone()), ov_req(a.overflow))), r(c1.year_month_from_partial(&partial_date(a, c1.clone()), ov_req(a.overflow)))])
+        }
+        97 => {
+            let _ = (c1.identifier(), c1.is_iso(), c1 == c2);
+            R::Ok
+        }
+        // ---- chains through several types
+        98 => {
+            let p = okk!(PlainDateTime::from_date_and_time(d1, t1));
+            prov!(pv => {
+                let z = okk!(p.to_zoned_date_time_with_provider(&tz, dis(a.dis), pv));
+                let s = okk!(z.to_string_with_provider(pv));
+                r(ZonedDateTime::from_str_with_provider(&s, dis(a.dis), offopt(a.offopt), pv))
+            })
+        }
+        99 => {
+            let d = okk!(duration_from_dur(&a.dur1));
+            let x = okk!(d1.add(&d, None));
+            let back = okk!(d1.until(&x, some!(settings(a))));
+            r(d1.add(&back, ov_opt(a.overflow)))
+        }
+        100 => {
+            let p = okk!(PlainDateTime::from_date_and_time(d1, t1));
+            let rr = okk!(p.round(some!(ropts(a))));
+            r(rr.until(&p, some!(settings(a))))
+        }
+        101 => {
+            let i = okk!(Instant::try_new(a.inst1));
+            let rr = okk!(i.round(some!(ropts(a))));
+            r(rr.since(&i, some!(settings(a))))
+        }
+        102 => {
+            let x = okk!(duration_from_dur(&a.dur1));
+            let p = TableProvider::utc_only();
+            let rr = okk!(x.round_with_provider(some!(ropts(a)), Some(RelativeTo::PlainDate(d1.clone())), &p));
+            first_err(vec![r(rr.total_with_provider(unit_req(a.largest), Some(RelativeTo::PlainDate(d2.clone())), &p)), r(d1.add(&rr, None))])
+        }
+        // ---- strings printed by the crate parse back without trouble
+        103 => {
+            let s = d1.to_ixdtf_string(dcal(a.display));
+            first_err(vec![r(PlainDate::from_str(&s)), r(PlainYearMonth::from_str(&s)), r(PlainMonthDay::from_str(&s)), r(Calendar::from_str(&s)), r(TimeZone::try_from_str(&s))])
+        }
+        104 => {
+            let d = okk!(duration_from_dur(&a.dur1));
+            let s = okk!(d.as_temporal_string(sopts(a)));
+            r(Duration::from_str(&s))
+        }
+        // ---- capi (the Rust-level ffi functions), a sample with raw arguments; the complete set runs in C19
+        105 => {
+            use temporal_capi::plain_date::ffi as fd;
+            let ccal = temporal_capi::calendar::ffi::Calendar(temporal_rs::Calendar::default());
+            let x = fd::PlainDate::try_create(a.y, a.mo, a.d, &ccal);
+            match x {
+                Ok(p) => {
+                    let _ = (p.iso_year(), p.iso_month(), p.iso_day(), p.is_valid());
+                    R::Ok
+                }
+                Err(e) => R::Err(capi_kind(e.kind), String::new()),
+            }
+        }
+        106 => {
+            use temporal_capi::instant::ffi as fi;
+            match fi::Instant::try_new(fi::I128Nanoseconds { high: (a.raw_ns >> 64) as i64, low: a.raw_ns as u64 }) {
+                Ok(i) => {
+                    let _ = (i.epoch_milliseconds(), i.epoch_nanoseconds());
+                    R::Ok
+                }
+                Err(e) => R::Err(capi_kind(e.kind), String::new()),
+            }
+        }
+        107 => {
+            use temporal_capi::duration::ffi as fdur;
+            match fdur::Duration::create(a.f[0], a.f[1], a.f[2], a.f[3], a.f[4], a.f[5], a.f[6], a.f[7], a.f[8], a.f[9]) {
+                Ok(d) => {
+                    let _ = (d.years(), d.nanoseconds(), d.sign(), d.is_zero());
+                    R::Ok
+                }
+                Err(e) => R::Err(capi_kind(e.kind), String::new()),
+            }
+        }
+        // ---- more option combinations on the cheap paths
+        108 => r(ResolvedOptionsProbe::probe(a)),
+        109 => {
+            // PlainDate.until across the whole range with every option
+            let lo = okk!(PlainDate::try_new(-271821, 4, 19, Calendar::default()));
+            let hi = okk!(PlainDate::try_new(275760, 9, 13, Calendar::default()));
+            first_err(vec![r(lo.until(&hi, some!(settings(a)))), r(hi.since(&lo, some!(settings(a)))), r(lo.until(&d1, some!(settings(a)))), r(d1.until(&hi, some!(settings(a))))])
+        }
+        110 => {
+            let lo = okk!(PlainDateTime::try_new(-271821, 4, 19, 0, 0, 0, 0, 0, 1, Calendar::default()));
+            let hi = okk!(PlainDateTime::try_new(275760, 9, 13, 23, 59, 59, 999, 999, 999, Calendar::default()));
+            first_err(vec![r(lo.until(&hi, some!(settings(a)))), r(hi.since(&lo, some!(settings(a)))), r(lo.round(some!(ropts(a)))), r(hi.round(some!(ropts(a)))), r(hi.to_ixdtf_string(sopts(a), DisplayCalendar::Auto))])
+        }
+        111 => {
+            let lo = okk!(Instant::try_new(-MAX_INSTANT));
+            let hi = okk!(Instant::try_new(MAX_INSTANT));
+            let p = TableProvider::utc_only();
+            first_err(vec![r(lo.until(&hi, some!(settings(a)))), r(hi.since(&lo, some!(settings(a)))), r(lo.round(some!(ropts(a)))), r(hi.round(some!(ropts(a)))), r(hi.to_ixdtf_string_with_provider(None, sopts(a), &p)), r(lo.to_ixdtf_string_with_provider(None, sopts(a), &p))])
+        }
+        112 => {
+            // zoned values at the limits in every kind of zone
+            prov!(p => {
+                let lo = okk!(ZonedDateTime::try_new(-MAX_INSTANT + (a.tod1 % 1000), Calendar::default(), tz.clone()));
+                let hi = okk!(ZonedDateTime::try_new(MAX_INSTANT - (a.tod2 % 1000), Calendar::default(), tz.clone()));
+                first_err(vec![
+                    r(lo.year_with_provider(p)), r(hi.year_with_provider(p)), r(lo.start_of_day_with_provider(p)), r(hi.start_of_day_with_provider(p)), r(lo.hours_in_day_with_provider(p)),
+                    r(hi.hours_in_day_with_provider(p)), r(lo.to_string_with_provider(p)), r(hi.to_string_with_provider(p)), r(lo.until_with_provider(&hi, some!(settings(a)), p)),
+                    r(hi.with_plain_time_and_provider(t1, p)), r(lo.with_plain_time_and_provider(t1, p)),
+                ])
+            })
+        }
+        113 => {
+            // every real zone at instants after 2037 (rule-based footer) and far in the past
+            let f = FS.with(|f| *f);
+            let name = match &a.zone {
+                ZoneArg::Named(n) => n.clone(),
+                _ => "America/New_York".to_string(),
+            };
+            let z = okk!(ZonedDateTime::try_new(a.inst1, Calendar::default(), TimeZone::IanaIdentifier(name)));
+            first_err(vec![r(z.hour_with_provider(f)), r(z.start_of_day_with_provider(f)), r(z.hours_in_day_with_provider(f)), r(duration_from_dur(&a.dur1).and_then(|d| z.add_with_provider(&d, None, f))), r(z.to_string_with_provider(f))])
+        }
+        114 => {
+            let f = FS.with(|f| *f);
+            let name = match &a.zone {
+                ZoneArg::Named(n) => n.clone(),
+                _ => "Europe/London".to_string(),
+            };
+            let p = okk!(PlainDateTime::from_date_and_time(d1.clone(), t1));
+            let tzn = TimeZone::IanaIdentifier(name);
+            first_err(vec![r(p.to_zoned_date_time_with_provider(&tzn, dis(a.dis), f)), r(d1.to_zoned_date_time_with_provider(tzn.clone(), None, f))])
+        }
+        115 => {
+            let t = okk!(PlainTime::try_new(23, 59, 59, 999, 999, 999));
+            first_err(vec![r(t.round(unit_req(a.smallest), Some(a.inc_f), mode_opt(a.mode))), r(t.to_ixdtf_string(sopts(a))), r(t.until(&t1, some!(settings(a))))])
+        }
+        116 => {
+            let ym = okk!(PlainYearMonth::new_with_overflow(-271821, 4, None, Calendar::default(), ArithmeticOverflow::Reject));
+            let ym2 = okk!(PlainYearMonth::new_with_overflow(275760, 9, None, Calendar::default(), ArithmeticOverflow::Reject));
+            first_err(vec![r(ym.until(&ym2, some!(settings(a)))), r(ym2.since(&ym, some!(settings(a)))), r(duration_from_dur(&a.dur1).and_then(|d| ym.add(&d, ov_req(a.overflow)))), r(duration_from_dur(&a.dur1).and_then(|d| ym2.subtract(&d, ov_req(a.overflow)))), r(ym.to_plain_date()), r(ym2.to_plain_date())])
+        }
+        _ => {
+            // Display impls
+            let p = okk!(PlainDateTime::from_date_and_time(okk!(d1.with_calendar(c1)), t1));
+            let ym = okk!(d1.to_plain_year_month());
+            let md = okk!(d1.to_plain_month_day());
+            let _ = (p.to_string(), ym.to_string(), md.to_string(), d1.to_string());
+            if let Ok(d) = duration_from_dur(&a.dur1) {
+                let _ = d.to_string();
+            }
+            R::Ok
+        }
+    }
+}
+
+fn capi_kind(k: temporal_capi::error::ffi::ErrorKind) -> ErrorKind {
+    use temporal_capi::error::ffi::ErrorKind as K;
+    match k {
+        K::Generic => ErrorKind::Generic,
+        K::Type => ErrorKind::Type,
+        K::Range => ErrorKind::Range,
+        K::Syntax => ErrorKind::Syntax,
+        K::Assert => ErrorKind::Assert,
+    }
+}
+
+/// helper so that options validation alone is also an op
+struct ResolvedOptionsProbe;
+impl ResolvedOptionsProbe {
+    fn probe(a: &Args) -> TemporalResult<()> {
+        let o = sopts(a);
+        let t = plain_time(a.tod1)?;
+        let _ = t.to_ixdtf_string(o)?;
+        Ok(())
+    }
+}
+
+pub struct Sub;
+impl SubCheck for Sub {
+    type Case = Case;
+    fn name(&self) -> &'static str {
+        "ops"
+    }
+    fn eval(&self, c: &Case) -> Outcome {
+        let mut o = Outcome::pass().class(OP_CLASS[(c.op as usize).min(OP_CLASS.len() - 1)]);
+        let a = &c.a;
+        // non-trivial: at least one boundary-class value or a non-default option
+        let boundary = a.y.unsigned_abs() >= 271_000 || a.f.iter().any(|v| v.abs() >= 2147483648.0) || a.inc > 1 || a.largest != 0 || a.smallest != 0 || a.mode != 0 || a.day1 <= MIN_DAY + 2 || a.day1 >= MAX_DAY - 2 || a.inst1.abs() >= MAX_INSTANT - 86_400_000_000_000 || !matches!(a.zone, ZoneArg::Fixed(0)) || a.cal != 0;
+        o = o.nontrivial(boundary);
+        match run_op(c) {
+            R::Ok => o = o.class("result:Ok"),
+            R::Skip => {
+                o = o.class("result:not-applicable");
+                o.nontrivial = false;
+            }
+            R::Err(ErrorKind::Assert, m) => o = o.fail(format!("C03/ops/{}/assert-error", OP_CLASS[(c.op as usize).min(OP_CLASS.len() - 1)]), "Type/Range/Syntax/Generic error or a value", format!("Err(Assert:{m})")),
+            R::Err(..) => o = o.class("result:Err"),
+        }
+        o
+    }
+}
+
+const OP_CLASS: [&str; 118] = [
+    "PlainDate::new", "PlainDate::try_new", "PlainDate::new_with_overflow", "PlainDate::from_partial", "PlainDate::with", "PlainDate::add(raw)", "PlainDate::subtract(raw)", "PlainDate::add",
+    "PlainDate::until", "PlainDate::since", "PlainDate::getters", "PlainDate::to_*", "PlainDate::to_string", "PlainDate::to_zoned", "PlainDate::from_str", "PlainDate::non-iso-arith",
+    "PlainDateTime::new", "PlainDateTime::try_new", "PlainDateTime::new_with_overflow", "PlainDateTime::from_date_and_time", "PlainDateTime::from_partial", "PlainDateTime::with",
+    "PlainDateTime::with_*", "PlainDateTime::add(raw)", "PlainDateTime::subtract", "PlainDateTime::until/since", "PlainDateTime::round", "PlainDateTime::to_zoned", "PlainDateTime::to_string",
+    "PlainDateTime::from_str", "PlainDateTime::getters", "PlainTime::new", "PlainTime::try_new", "PlainTime::new_with_overflow", "PlainTime::from_partial", "PlainTime::with", "PlainTime::add(raw)",
+    "PlainTime::subtract", "PlainTime::until/since", "PlainTime::round", "PlainTime::to_string", "PlainTime::from_str", "PlainYearMonth::new_with_overflow", "PlainYearMonth::from_partial",
+    "PlainYearMonth::with", "PlainYearMonth::add/subtract", "PlainYearMonth::until/since", "PlainYearMonth::getters", "PlainYearMonth::from_str", "PlainMonthDay::new_with_overflow",
+    "PlainMonthDay::misc", "PlainMonthDay::from_str", "Instant::try_new", "Instant::from_epoch_milliseconds", "Instant::add/subtract", "Instant::until/since", "Instant::round", "Instant::to_string",
+    "Instant::from_str", "Duration::new", "Duration::from_partial_duration", "Duration::parts", "Duration::add/subtract", "Duration::round", "Duration::total", "Duration::compare",
+    "Duration::unvalidated", "Duration::as_temporal_string", "Duration::from_str", "ZonedDateTime::try_new", "ZonedDateTime::from_partial", "ZonedDateTime::from_str", "ZonedDateTime::getters",
+    "ZonedDateTime::calendar-getters", "ZonedDateTime::add(raw)", "ZonedDateTime::subtract", "ZonedDateTime::until", "ZonedDateTime::since", "ZonedDateTime::start_of_day",
+    "ZonedDateTime::hours_in_day", "ZonedDateTime::with_plain_time", "ZonedDateTime::to_plain_*", "ZonedDateTime::to_string", "ZonedDateTime::transition", "ZonedDateTime::with_*",
+    "ZonedDateTime::chain", "Now::with_system_info", "Calendar::from_str", "Calendar::from_utf8", "MonthCode::parse", "TimeZone::parse", "UtcOffset::parse", "enums::from_str",
+    "RelativeTo::from_str", "options::helpers", "FsTzdbProvider::raw", "Calendar::*_from_partial", "Calendar::misc", "chain:zoned-string", "chain:date-add-until-add", "chain:datetime-round-until",
+    "chain:instant-round-since", "chain:duration-round-total", "chain:date-string-reparse", "chain:duration-string-reparse", "capi::PlainDate", "capi::Instant", "capi::Duration", "options::to_string",
+    "limits:PlainDate", "limits:PlainDateTime", "limits:Instant", "limits:ZonedDateTime", "real-zones:zoned", "real-zones:wall", "limits:PlainTime", "limits:PlainYearMonth", "Display",
+];
+
+// ------------------------------------------------------------------------------------------
+// generators
+
+pub fn iana_names() -> &'static Vec<String> {
+    static N: OnceLock<Vec<String>> = OnceLock::new();
+    N.get_or_init(|| {
+        let mut v = vec![];
+        if let Ok(t) = std::fs::read_to_string("/usr/share/zoneinfo/tzdata.zi") {
+            for l in t.lines() {
+                let mut it = l.split_whitespace();
+                match it.next() {
+                    Some("Z") => {
+                        if let Some(n) = it.next() {
+                            v.push(n.to_string());
+                        }
+                    }
+                    Some("L") => {
+                        if let Some(n) = it.nth(1) {
+                            v.push(n.to_string());
+                        }
+                    }
+                    _ => {}
+                }
+            }
+        }
+        if v.is_empty() {
+            v = vec!["UTC".into(), "America/New_York".into(), "Europe/London".into(), "Pacific/Apia".into(), "Australia/Lord_Howe".into()];
+        }
+        v.sort();
+        v
+    })
+}
+
+fn any_i32() -> BoxedStrategy<i32> {
+    prop_oneof![
+        3 => -271_825i32..=275_765,
+        2 => (-3i32..=3).prop_map(|k| -271_821 + k),
+        2 => (-3i32..=3).prop_map(|k| 275_760 + k),
+        2 => -10_000i32..=10_000,
+        1 => any::<i32>(),
+        1 => proptest::sample::select(vec![i32::MIN, i32::MIN + 1, i32::MAX, i32::MAX - 1, 0, -1, 1]),
+    ]
+    .boxed()
+}
+fn any_u8() -> BoxedStrategy<u8> {
+    prop_oneof![3 => any::<u8>(), 3 => proptest::sample::select(vec![0u8, 1, 2, 11, 12, 13, 23, 24, 28, 29, 30, 31, 32, 59, 60, 61, 255]), 3 => 1u8..=12].boxed()
+}
+fn any_u16() -> BoxedStrategy<u16> {
+    prop_oneof![3 => 0u16..=999, 2 => proptest::sample::select(vec![0u16, 1, 999, 1000, 1001, 65535]), 1 => any::<u16>()].boxed()
+}
+fn raw_f64() -> BoxedStrategy<f64> {
+    prop_oneof![
+        6 => Just(0.0f64),
+        4 => (-50i64..=50).prop_map(|v| v as f64),
+        2 => (-1_000_000i64..=1_000_000).prop_map(|v| v as f64),
+        1 => proptest::sample::select(vec![2147483647.0f64, 2147483648.0, 2147483649.0, 4294967295.0, 4294967296.0, 9007199254740991.0, 9007199254740992.0, 9.007199254740992e18, 9.007199254740992e24, 1e300, f64::MAX, f64::MIN_POSITIVE, 0.5, 1.5, -0.0]),
+        1 => (any::<bool>(), 0u32..=1000).prop_map(|(n, e)| if n { -(2f64.powi(e as i32)) } else { 2f64.powi(e as i32) }),
+        1 => any::<f64>().prop_filter("finite", |v| v.is_finite()),
+    ]
+    .boxed()
+}
+fn raw_i128() -> BoxedStrategy<i128> {
+    prop_oneof![
+        4 => gen::instant_ns(),
+        2 => (-3i128..=3).prop_map(|k| MAX_INSTANT + k),
+        2 => (-3i128..=3).prop_map(|k| -MAX_INSTANT + k),
+        1 => any::<i128>(),
+        1 => proptest::sample::select(vec![i128::MIN, i128::MAX, i64::MAX as i128, i64::MIN as i128, (1i128 << 64), -(1i128 << 64), (1i128 << 100)]),
+    ]
+    .boxed()
+}
+fn text() -> BoxedStrategy<String> {
+    let templates = vec![
+        "2020-01-01", "2020-01-01T00:00", "2020-01-01T12:30:45.123456789", "2020-01-01T00:00Z", "2020-01-01T00:00+01:00", "2020-01-01T00:00+01:00[Europe/Paris]", "2020-01-01T00:00[UTC]",
+        "2020-01-01T00:00Z[America/New_York]", "2020-01-01[u-ca=japanese]", "2020-01-01T00:00[!u-ca=iso8601]", "-271821-04-19", "-271821-04-20T00:00Z", "+275760-09-13T00:00Z", "+275760-09-13T23:59:59.999999999",
+        "2020-01", "202001", "01-01", "--01-01", "12:30", "T12:30", "123045", "PT1H", "P1Y2M3W4DT5H6M7.000000008S", "-P1D", "PT0.000000001S", "P4294967295Y", "PT9007199254740991S", "PT2562047788015215H",
+        "+01:00", "-23:59", "+00:00:01", "Z", "UTC", "America/New_York", "Etc/GMT+12", "M01", "M13", "M05L", "iso8601", "japanese", "hebrew", "islamic-umalqura", "2017-11-05T01:30[America/New_York]",
+        "2011-12-30T12:00[Pacific/Apia]", "1970-01-01T00:00:60Z", "2020-02-30", "0000-01-01", "-000000-01-01", "2020-01-01T24:00", "2020-W01", "9999-12-31T23:59:59.9999999999Z",
+        "+275760-09-14T00:00Z", "2038-01-19T03:14:08[America/New_York]", "2500-07-01T00:00[Europe/London]", "1800-01-01T00:00[Asia/Kolkata]", "year", "halfExpand", "constrain", "",
+    ];
+    prop_oneof![
+        5 => proptest::sample::select(templates.clone()).prop_map(String::from),
+        4 => (proptest::sample::select(templates.clone()), any::<usize>(), any::<u8>(), 0u8..4).prop_map(|(t, pos, ch, k)| {
+            let mut b: Vec<u8> = t.as_bytes().to_vec();
+            let c = match ch % 6 { 0 => b'0' + ch % 10, 1 => b"+-:.,TZ[]!=/P"[(ch / 6) as usize % 13], 2 => b'a' + ch % 26, 3 => b'A' + ch % 26, 4 => ch, _ => b' ' };
+            if b.is_empty() { return String::from_utf8_lossy(&[c]).into_owned(); }
+            let p = pos % b.len();
+            match k { 0 => b[p] = c, 1 => b.insert(p, c), 2 => { b.remove(p); } _ => { let q = (p + 1) % b.len(); b.swap(p, q); } }
+            String::from_utf8_lossy(&b).into_owned()
+        }),
+        1 => (proptest::sample::select(templates.clone()), proptest::sample::select(templates)).prop_map(|(a, b)| format!("{}{}", &a[..a.len() / 2], &b[b.len() / 2..])),
+        1 => ".{0,24}",
+    ]
+    .boxed()
+}
+fn zone_arg() -> BoxedStrategy<ZoneArg> {
+    let names = iana_names().clone();
+    let shaped = shaped_zones();
+    prop_oneof![
+        2 => (-1439i32..=1439).prop_map(ZoneArg::Fixed),
+        1 => Just(ZoneArg::Fixed(0)),
+        3 => syn_zone().prop_map(ZoneArg::Table),
+        2 => proptest::sample::select(shaped).prop_map(ZoneArg::Table),
+        4 => proptest::sample::select(names).prop_map(ZoneArg::Named),
+        1 => proptest::sample::select(vec!["America/New_York", "Pacific/Apia", "Australia/Lord_Howe", "Europe/Dublin", "Africa/Casablanca", "Antarctica/Troll", "Asia/Kathmandu", "Pacific/Kiritimati", "Africa/Monrovia", "Not/AZone", "", "..", "../../etc/passwd", "america/new_york", "Etc"]).prop_map(|s| ZoneArg::Named(s.to_string())),
+    ]
+    .boxed()
+}
+
+fn args() -> BoxedStrategy<Args> {
+    let nums = (any_i32(), any_u8(), any_u8(), any_u8(), any_u8(), any_u8(), any_u16(), any_u16(), any_u16(), any_i32());
+    let recv = (gen::day(), gen::day(), gen::ns_of_day(), gen::ns_of_day(), gen::instant_ns(), gen::instant_ns(), raw_i128(), prop_oneof![any::<i64>(), (-8_640_000_000_000_003i64..=8_640_000_000_000_003)]);
+    let durs = (prop::array::uniform10(raw_f64()), gen::valid_dur(600_000, true), gen::valid_dur(40, true));
+    let opts = (0u8..12, 0u8..12, prop_oneof![4 => Just(0u32), 3 => 1u32..=60, 2 => proptest::sample::select(vec![1u32, 2, 999, 1000, 86400, 1_000_000_000, 1_000_000_001, u32::MAX]), 1 => any::<u32>()], raw_f64(), 0u8..10, 0u8..3, 0u8..4, 0u8..4, any::<u8>(), 0u8..14);
+    let misc = (0u8..20, 0u8..20, zone_arg(), text(), any::<u16>(), proptest::sample::select(vec!["", "ce", "bce", "reiwa", "heisei", "meiji", "showa", "taisho", "roc", "ah", "am", "be", "incar", "mundi", "default", "gregory", "japanese", "zzzzzzzzzzzzzzzzzzz"]).prop_map(String::from), proptest::sample::select(vec!["M01", "M02", "M06", "M12", "M13", "M00", "M05L", "M12L", "M99", "m01", "", "M1", "M001"]).prop_map(String::from));
+    (nums, recv, durs, opts, misc)
+        .prop_map(|(n, rc, d, o, m)| Args {
+            y: n.0, mo: n.1, d: n.2, h: n.3, mi: n.4, s: n.5, ms: n.6, us: n.7, ns: n.8, y2: n.9,
+            day1: rc.0, day2: rc.1, tod1: rc.2, tod2: rc.3, inst1: rc.4, inst2: rc.5, raw_ns: rc.6, raw_ms: rc.7,
+            f: d.0, dur1: d.1, dur2: d.2,
+            largest: o.0, smallest: o.1, inc: o.2, inc_f: o.3, mode: o.4, overflow: o.5, dis: o.6, offopt: o.7, display: o.8, precision: o.9,
+            cal: m.0, cal2: m.1, zone: m.2, text: m.3, mask: m.4, era: m.5, mcode: m.6,
+        })
+        .boxed()
+}
+
+pub fn case() -> BoxedStrategy<Case> {
+    (0u16..N_OPS, args()).prop_map(|(op, a)| Case { op, a }).boxed()
+}
+
+/// observational calendars take seconds per conversion far from the present (a liveness concern that is
+/// reported through the watchdog): keep the structured universe inside the range where they terminate quickly
+fn tame(mut c: Case) -> Case {
+    let slow = |i: u8| matches!(CALS[i as usize % CALS.len()], "islamic" | "islamic-umalqura" | "chinese" | "dangi");
+    if slow(c.a.cal) || slow(c.a.cal2) {
+        let lo = to_days(-8000, 1, 1);
+        let hi = to_days(8000, 1, 1);
+        c.a.day1 = c.a.day1.clamp(lo, hi);
+        c.a.day2 = c.a.day2.clamp(lo, hi);
+        c.a.y = c.a.y.clamp(-8000, 8000);
+        c.a.y2 = c.a.y2.clamp(-8000, 8000);
+        let span = hi as i128 * NS_DAY;
+        c.a.inst1 = c.a.inst1.clamp(-span, span);
+        c.a.inst2 = c.a.inst2.clamp(-span, span);
+        c.a.raw_ns = c.a.raw_ns.clamp(-span, span);
+    }
+    c
+}
+
+pub fn run(ctx: &mut Ctx) {
+    ctx.rule = format!("structured op universe: {} operations covering the constructors, from_partial/with, arithmetic, differences, rounding, conversions, getters (every calendar), to-string/from-string of every public type, Duration round/total/compare with every kind of relativeTo, ZonedDateTime over fixed offsets, synthetic rule tables, shaped tables and every real IANA zone of the bundled provider (incl. instants after 2037 and garbage identifiers), option helpers, identifier/enum parsers, Now::*_with_system_info, a sample of temporal_capi functions (all of them run under panic capture in C19) and multi-step chains; arguments are raw (full i32/u8/u16/i128 ranges, any finite double incl. 1e300 and non-integral values, every unit/mode/option incl. Unit::Auto in every slot, increments up to u32::MAX, strings from templates + mutations + arbitrary) and receivers are valid values biased to the limits. A case fails iff it panics (caught, signature = location), returns ErrorKind::Assert, or exceeds the 60 s watchdog (exit 2). non-trivial = at least one boundary-class value or non-default option; distinct by case hash.", N_OPS);
+    ctx.assumptions = vec![
+        "observational/lunisolar calendars are exercised within ISO years +-8000 here (beyond that single conversions take seconds; the far range is sampled in C16 and reported there)".into(),
+        "'loops without bound' is only observable as the watchdog timeout, reported as exit 2 (inconclusive)".into(),
+    ];
+    enable_journal();
+    let strat = || case().prop_map(tame);
+    ctx.run_prop(&Sub, &strat, ctx.tier.pick(400_000, 12_000_000));
+    ctx.run_release_profile();
+}
+
+pub fn replay(ctx: &mut Ctx, sub: &str, case: &Value) -> bool {
+    match sub {
+        "ops" => ctx.replay_case(&Sub, case),
+        _ => false,
+    }
+}
+
+#[allow(dead_code)]
+fn _unused(d: Dt) -> (Dt, bool) {
+    (d, date_in_range(0))
 }
